@@ -113,8 +113,8 @@ class TableHooks(D.DomHooks):
                 ev.append('base-invoke')
                 return A.NONE
         # the TeX object of compileColspec
-        if isinstance(node.func, ast.Attribute) and isinstance(node.func.value, ast.Name):
-            recv = state.env.get(node.func.value.id)
+        if isinstance(node.func, ast.Attribute) and isinstance(node.func.value, (ast.Name, ast.Attribute)):
+            recv = state.env.get(node.func.value.id) if isinstance(node.func.value, ast.Name) else interp.ev(node.func.value, state)
             if isinstance(recv, A.Obj) and '__stream' in recv.attrs:
                 st = recv.attrs['__stream']
                 attr = node.func.attr
